@@ -1014,11 +1014,183 @@ fn key_bounds(c: &mut Ctx) {
     }
 }
 
+
+// ------------------------------------------------- the client-side wrapper ----
+
+/// `net::client::tsig::Connection`: the transport wrapper that signs every request on its way to
+/// an upstream transport and verifies what comes back. The upstream here is the reference
+/// implementation acting as a server: it verifies the request as it left the wrapper, answers
+/// and signs the answer — honestly, or with one thing wrong. The caller gets the answer as the
+/// server made it before signing when all is well, and an error otherwise.
+mod wrapper {
+    use super::*;
+    use domain::net::client::request::{Error as ClientError, GetResponse, RequestMessage, SendRequest};
+    use domain::net::client::tsig as ctsig;
+    use bytes::Bytes;
+    use std::sync::Mutex;
+
+    #[derive(Debug)]
+    struct Ready(Option<Result<Message<Bytes>, ClientError>>);
+    impl GetResponse for Ready {
+        fn get_response(&mut self) -> std::pin::Pin<Box<dyn std::future::Future<Output = Result<Message<Bytes>, ClientError>> + Send + Sync + '_>> {
+            let r = self.0.take().unwrap_or(Err(ClientError::ConnectionClosed));
+            Box::pin(std::future::ready(r))
+        }
+    }
+
+    pub struct Outcome {
+        pub request_verified: Result<(), String>,
+        pub unsigned_response: Vec<u8>,
+    }
+
+    pub struct RefServer {
+        pub key: RefKey,
+        pub fault: &'static str,
+        pub seed: u64,
+        pub out: Arc<Mutex<Option<Outcome>>>,
+    }
+
+    impl SendRequest<ctsig::RequestMessage<RequestMessage<Vec<u8>>, Arc<Key>>> for RefServer {
+        fn send_request(&self, req: ctsig::RequestMessage<RequestMessage<Vec<u8>>, Arc<Key>>) -> Box<dyn GetResponse + Send + Sync> {
+            use domain::net::client::request::ComposeRequest;
+            let mut rng = Rng::new(&[self.seed, 11]);
+            let signed = match req.to_message() {
+                Ok(m) => m.as_slice().to_vec(),
+                Err(e) => {
+                    *self.out.lock().unwrap() = Some(Outcome { request_verified: Err(format!("to_message: {}", e)), unsigned_response: vec![] });
+                    return Box::new(Ready(None));
+                }
+            };
+            let now = std::time::SystemTime::now().duration_since(std::time::UNIX_EPOCH).unwrap().as_secs();
+            let (orig, mac) = match rt::verify(&self.key, &Kind::Request, &signed, now) {
+                Ok(x) => x,
+                Err(e) => {
+                    *self.out.lock().unwrap() = Some(Outcome { request_verified: Err(format!("{:?}", e)), unsigned_response: vec![] });
+                    return Box::new(Ready(None));
+                }
+            };
+            // the answer: the request's ID and question, one address record
+            let Ok(pm) = w::parse_message(&orig) else { return Box::new(Ready(None)) };
+            let Some(q) = pm.questions.first() else { return Box::new(Ready(None)) };
+            let mut resp = w::header(pm.id, 0x8180, [1, 1, 0, 0]);
+            resp.extend_from_slice(&q.name);
+            resp.extend_from_slice(&q.qtype.to_be_bytes());
+            resp.extend_from_slice(&q.qclass.to_be_bytes());
+            resp.extend(w::compose_record(&q.name, 1, 1, 60, &[192, 0, 2, rng.u8()]));
+            let mut key = self.key.clone();
+            let mut time = now;
+            match self.fault {
+                "other-secret" => key.secret.push(1),
+                "time-behind" => time = now - 301 - rng.below(5000) as u64,
+                "time-ahead" => time = now + 301 + rng.below(5000) as u64,
+                "without-request-mac" => {}
+                _ => {}
+            }
+            let kind = if self.fault == "without-request-mac" { Kind::Request } else { Kind::Response { request_mac: &mac } };
+            let (mut wire, _) = rt::sign(&key, &kind, &resp, time, 300, 0, &[]);
+            match self.fault {
+                "flip-body" => {
+                    let p = 12 + rng.below(resp.len() - 12);
+                    wire[p] ^= 1 << rng.below(8);
+                }
+                "flip-mac" => {
+                    let l = wire.len();
+                    wire[l - 7 - rng.below(10)] ^= 1 << rng.below(8); // inside the MAC (ahead of original ID, error, other len)
+                }
+                "unsigned" => wire = resp.clone(),
+                _ => {}
+            }
+            *self.out.lock().unwrap() = Some(Outcome { request_verified: Ok(()), unsigned_response: resp });
+            match Message::from_octets(Bytes::from(wire)) {
+                Ok(m) => Box::new(Ready(Some(Ok(m)))),
+                Err(_) => Box::new(Ready(None)),
+            }
+        }
+    }
+
+    pub fn case(c: &mut Ctx, fam: &str, idx: u64) {
+        let mut rng = c.case_rng(fam, idx);
+        let keys = gen_key(&mut rng);
+        let fault = *rng.pick(&["none", "none", "none", "flip-body", "flip-mac", "other-secret", "time-behind", "time-ahead", "unsigned", "without-request-mac"]);
+        let out = Arc::new(Mutex::new(None));
+        let server = RefServer { key: keys.r.clone(), fault, seed: c.seed ^ idx, out: out.clone() };
+        let l = format!("w{}", idx);
+        let mut qn = vec![l.len() as u8];
+        qn.extend_from_slice(l.as_bytes());
+        qn.extend_from_slice(b"\x04test\x00");
+        let mut mb = MessageBuilder::new_vec();
+        mb.header_mut().set_id(rng.u16());
+        mb.header_mut().set_rd(rng.bool());
+        let mut qb = mb.question();
+        qb.push((Name::<Vec<u8>>::from_octets(qn).unwrap(), if rng.bool() { Rtype::A } else { Rtype::TXT })).unwrap();
+        let with_opt = rng.chance(1, 3);
+        let ex = json!({"alg": keys.r.alg.text(), "signing_len": keys.r.signing_len, "min_mac_len": keys.r.min_mac_len, "secret_len": keys.r.secret.len(), "fault": fault, "request_has_opt": with_opt});
+        let rt_ = tokio::runtime::Builder::new_current_thread().enable_all().build().unwrap();
+        let lib_key = keys.lib.clone();
+        let res = ctx::catch(|| {
+            rt_.block_on(async move {
+                let mut rm = RequestMessage::new(qb.into_message()).map_err(|e| format!("request: {}", e))?;
+                if with_opt {
+                    use domain::net::client::request::ComposeRequest;
+                    rm.set_udp_payload_size(1232);
+                }
+                let conn = ctsig::Connection::new(lib_key, server);
+                let mut gr = SendRequest::send_request(&conn, rm);
+                Ok::<_, String>(gr.get_response().await.map(|m| m.as_slice().to_vec()).map_err(|e| format!("{}", e)))
+            })
+        });
+        let got = match res {
+            Err(pi) => {
+                c.violation(&format!("panic:{}", pi.site()), &format!("panic in the client-side TSIG wrapper: {} at {}:{}", pi.msg, pi.file, pi.line), c.replay_of(fam, idx, ex));
+                return;
+            }
+            Ok(Err(e)) => {
+                c.note(&format!("harness: wrapper request not built: {}", e));
+                return;
+            }
+            Ok(Ok(g)) => g,
+        };
+        let o = out.lock().unwrap().take();
+        let Some(o) = o else {
+            c.violation("wrapper:request-never-reached-upstream", "the wrapper completed without handing a request to its upstream", c.replay_of(fam, idx, ex));
+            return;
+        };
+        if let Err(e) = &o.request_verified {
+            c.violation("wrapper:request-does-not-verify", &format!("the request as signed by net::client::tsig does not verify by the reference: {}", e), c.replay_of(fam, idx, ex));
+            return;
+        }
+        c.count("wrapper_requests_verified_by_reference", 1);
+        match (fault, got) {
+            ("none", Ok(m)) => {
+                // (as with ClientTransaction::answer the TSIG record's octets may linger behind the last record)
+                if !restored(&m, &o.unsigned_response) {
+                    c.violation("wrapper:response-altered", &format!("the caller got other octets than the server's answer before signing: got {} want {}", hex(&m), hex(&o.unsigned_response)), c.replay_of(fam, idx, ex));
+                } else {
+                    c.count("wrapper_honest_exchanges", 1);
+                }
+            }
+            ("none", Err(e)) => c.violation("wrapper:honest-response-refused", &format!("an honestly signed response is refused: {}", e), c.replay_of(fam, idx, ex)),
+            (f, Ok(_)) => c.violation(&format!("wrapper:accepted-despite:{}", f), &format!("a response with [{}] was handed to the caller as authentic", f), c.replay_of(fam, idx, ex)),
+            (_, Err(_)) => c.count("wrapper_bad_responses_refused", 1),
+        }
+        c.eval(&("wrapper", keys.r.alg.text(), fault, with_opt, keys.r.signing_len < keys.r.alg.native_len()));
+    }
+}
+
 pub fn run(c: &mut Ctx) {
-    c.families(2);
+    c.families(3);
     let mut log = Log(std::fs::File::create(c.logdir.join(format!("tsig_{}.jsonl", c.shard))).ok());
     if c.shard == 0 && !c.replaying() {
         key_bounds(c);
+    }
+    let fam = "wrapper";
+    let total = c.total(6_000, 300_000);
+    for idx in c.cases(fam, total) {
+        if c.out_of_time() {
+            break;
+        }
+        ctx::slot_write(idx, &format!("{}|case", fam), &[]);
+        wrapper::case(c, fam, idx);
     }
     let fam = "exchange";
     let total = c.total(5_000, 250_000);
@@ -1039,7 +1211,7 @@ pub fn run(c: &mut Ctx) {
         sequence(c, fam, idx, &mut log);
     }
     if !c.replaying() {
-        for k in ["macs_compared", "honest_requests_verified", "honest_responses_verified", "requests_outside_window_rejected", "responses_outside_window_rejected", "badtime_responses_checked", "request_tampers", "response_tampers", "lib_server_sequences", "ref_server_sequences", "sequences_of_100_or_more", "unsigned_runs_cut_off", "poisoned_sequences_rejected", "tampered_but_authentic_by_rfc"] {
+        for k in ["macs_compared", "honest_requests_verified", "honest_responses_verified", "requests_outside_window_rejected", "responses_outside_window_rejected", "badtime_responses_checked", "request_tampers", "response_tampers", "lib_server_sequences", "ref_server_sequences", "sequences_of_100_or_more", "unsigned_runs_cut_off", "poisoned_sequences_rejected", "tampered_but_authentic_by_rfc", "wrapper_honest_exchanges", "wrapper_bad_responses_refused", "wrapper_requests_verified_by_reference"] {
             c.floor(k, 3);
         }
     }
